@@ -285,7 +285,7 @@ def delete_sections(ctx):
     return out
 
 
-def _filter_chain(ctx, b, sl, op):
+def _filter_chain(ctx, b, sl, op, extra=(), trail=None):
     """Walks the iterator pipeline that produced a list: returns (closures of the `filter` steps, operand the
     pipeline started from)."""
     filters = []
@@ -299,9 +299,11 @@ def _filter_chain(ctx, b, sl, op):
             break
         last = (l[1] or "").split("::")[-1]
         if last not in ("collect", "from_iter", "filter", "into_iter", "iter", "copied", "cloned", "by_ref", "rev",
-                        "drain"):
+                        "drain", "inspect", "into_keys", "keys", "peekable") + tuple(extra):
             break
         t = b.blocks[l[2]]["term"]
+        if trail is not None:
+            trail.append(l)
         if last == "filter":
             site2 = Site(b, l[2], t)
             filters += [tg for tg, how in ctx.prog.call_targets(site2) if how == "extern-cb"]
